@@ -127,6 +127,9 @@ pub fn install_panic_hook() {
             })
             .unwrap_or_default();
         let line = info.location().map(|l| l.line()).unwrap_or(0);
+        if std::env::var_os("VERIF_PANIC_STDERR").is_some() {
+            eprintln!("panic at {loc}:{line}: {msg}");
+        }
         LAST_PANIC.with(|p| *p.borrow_mut() = Some(format!("{}\u{1}{}\u{1}{}", loc, line, msg)));
     }));
 }
@@ -519,6 +522,7 @@ impl Check {
                     if startj >= len {
                         break;
                     }
+                    let errfile = format!("/dev/shm/verif-worker-{}-{}.err", std::process::id(), k);
                     let mut child = match Command::new(&exe)
                         .args(["--tier", tier.as_str(), "--worker"])
                         .arg(k.to_string())
@@ -528,7 +532,8 @@ impl Check {
                         .arg(startj.to_string())
                         .stdin(Stdio::null())
                         .stdout(Stdio::piped())
-                        .stderr(Stdio::null())
+                        .stderr(std::fs::File::create(&errfile).map(Stdio::from).unwrap_or_else(|_| Stdio::null()))
+                        .env("VERIF_PANIC_STDERR", "1")
                         .spawn()
                     {
                         Ok(c) => c,
@@ -596,6 +601,7 @@ impl Check {
                     }
                     finished.store(1, Ordering::SeqCst);
                     let status = child.wait();
+                    let _cleanup = scopeguard_remove(&errfile);
                     let _ = wd.join();
                     if capped.load(Ordering::SeqCst) != 0 {
                         return;
@@ -614,7 +620,10 @@ impl Check {
                                 Err(e) => format!("crash: wait failed {e}"),
                             }
                         };
-                        let v = json!({"i": idx, "nt": true, "o": 0, "v": [{"s": how, "d": "process-level failure attributed to this case"}], "needdesc": true});
+                        // last words of the worker (panic messages of non-unwinding panics, allocator aborts)
+                        let tail: String = std::fs::read_to_string(&errfile).unwrap_or_default().lines().rev().take(4).collect::<Vec<_>>().into_iter().rev().collect::<Vec<_>>().join(" | ");
+                        let how = if tail.contains("deadlock") { format!("{how} (deadlock reported by the scheduler)") } else { how };
+                        let v = json!({"i": idx, "nt": true, "o": 0, "v": [{"s": how, "d": format!("process-level failure attributed to this case; worker stderr: {}", tail.chars().take(600).collect::<String>())}], "needdesc": true});
                         absorb(&mut shared.lock().unwrap(), &name, &arg, &v, len);
                         done_cases.fetch_add(1, Ordering::Relaxed);
                         startj = idx + 1;
@@ -884,6 +893,16 @@ fn absorb(a: &mut Agg, space: &str, arg: &str, v: &Value, len: u64) {
     if is_sample_index(idx, len) && !v["desc"].is_null() && a.samples.len() < 12 {
         a.samples.push(json!({"space": space, "index": idx, "case": v["desc"].clone()}));
     }
+}
+
+struct RemoveOnDrop(String);
+impl Drop for RemoveOnDrop {
+    fn drop(&mut self) {
+        let _ = std::fs::remove_file(&self.0);
+    }
+}
+fn scopeguard_remove(p: &str) -> RemoveOnDrop {
+    RemoveOnDrop(p.to_string())
 }
 
 /// run a command to completion with a wall-clock limit; Ok((success, stdout)) or Err("timeout")
